@@ -4,8 +4,12 @@ import numpy as np
 
 from common import R, Rvec, Cx, fl, cfl
 
-LEAN_MODULES = ["PyomaVerif.Props.C06", "PyomaVerif.Mutants.C06"]
+from common import wiring_pre_build as pre_build  # noqa: E402,F401
+
+LEAN_MODULES = ["PyomaVerif.Props.C06", "PyomaVerif.Mutants.C06", "PyomaVerif.Props.WiringMpe"]
 THEOREMS = [
+    # call-site wiring of the class layer, regenerated from /repo on every run (translate_wiring.py)
+    "PV.WiringMpe.C06_fdd_mpe_wiring",
     "PV.C06.C06_band_limits",
     "PV.C06.pickIdx_spec",
     "PV.C06.C06_pick",
